@@ -266,7 +266,13 @@ def stmtTGK (kw : List Char) (e : List Char) : BStmt → List (Tok × List Char)
 /-- the token stream of a statement list in which every interface statement carries its own keyword spelling -/
 def benchToksK (ks : List (List Char × BStmt)) : List Tok := ks.flatMap fun p => (stmtTGK p.1 [] p.2).map (·.1)
 
-/-- every chosen spelling is one of the four keyword literals -/
-def kwsOK (ks : List (List Char × BStmt)) : Bool := ks.all fun p => isKw p.1
+/-- the spelling chosen for an interface statement is one of the four keyword literals (an assignment has no keyword: its entry
+is ignored) -/
+def kwOK (p : List Char × BStmt) : Bool :=
+  match p.2 with
+  | .intf _ => isKw p.1
+  | .gate _ _ _ => true
+
+def kwsOK (ks : List (List Char × BStmt)) : Bool := ks.all kwOK
 
 end KV.BenchText
